@@ -163,6 +163,57 @@ fn counter_boundaries(rep: &Report) {
     rep.extra("counter_boundaries", json!(bounds));
 }
 
+/// The reader of the stdout pipe goes away early (`kestrel decrypt ... | head -c N`) while at least 127 KiB of plaintext are
+/// still undelivered (far more than the 64 KiB pipe buffer): exit 0 would report a complete decryption that did not happen.
+pub fn reader_leaves_cases(rep: &Report, tag: &str) {
+    use crate::fx::Party;
+    use crate::proc::{self, Cmd, Scratch};
+    let seed = rep.seed;
+    const CS: usize = 65536;
+    let alice = Party::new(seed, "alice", "alicepw");
+    let bob = Party::new(seed, "bob", "bobpw");
+    let kr = crate::fx::keyring(&[(&alice, false), (&bob, true)]);
+    let p = plaintext(seed ^ 0x4c1, 3 * CS + 300);
+    let f = r::write_key_file(&alice.sk, &bob.pk, &derive32(seed, "rl-e"), &derive32(seed, "rl-p"), &p, &[CS, CS, CS, 300]).unwrap();
+    let salt = derive32(seed, "rl-salt");
+    let q = r::write_pass_file_with_key(&r::pass_key(b"filepw", &salt), &salt, &p, &[CS, CS, CS, 300]);
+    let mut jobs = vec![];
+    for mode in ["key", "pass"] {
+        for k in [0usize, 1, 100, 4096, 65536] {
+            jobs.push((mode, k));
+        }
+    }
+    jobs.par_iter().for_each(|&(mode, k)| {
+        rep.eval(1);
+        rep.nontrivial(format!("{}-reader-leaves-{}-{}", tag, mode, k).as_bytes());
+        let attempt = || -> Result<(), String> {
+            let sc = Scratch::new();
+            sc.write("in.ktl", if mode == "key" { &f } else { &q });
+            sc.write("kr.txt", kr.as_bytes());
+            let args: Vec<&str> = if mode == "key" { vec!["decrypt", "in.ktl", "-t", "bob", "-k", "kr.txt", "--env-pass"] } else { vec!["password", "decrypt", "in.ktl", "--env-pass"] };
+            let mut c = Cmd::new(&args).env("KESTREL_PASSWORD", if mode == "key" { "bobpw" } else { "filepw" });
+            c.stdout_reader_leaves_after = Some(k);
+            let out = proc::run(&c, &sc.0);
+            if out.timed_out || out.stderr.contains("panicked at") {
+                return Err(format!("ill-behaved: {}", out.summary()));
+            }
+            if !p.starts_with(&out.stdout) {
+                return Err("what reached the pipe is not a prefix of the authentic plaintext".into());
+            }
+            if out.ok() {
+                return Err(format!("exit status 0 although the reader of the stdout pipe left after {} of the {} plaintext bytes", k, p.len()));
+            }
+            Ok(())
+        };
+        if attempt().is_err() {
+            if let Err(e) = attempt() {
+                rep.violation(&format!("{}/cli/reader-leaves/{}", tag, mode), json!({"kind":"reader-leaves","mode":mode,"k":k}), format!("kestrel {} decrypt of an authentic 4-chunk file to a stdout pipe: {}", mode, e));
+            }
+        }
+    });
+    rep.extra("cli_reader_leaves_cases_4_chunks", json!(jobs.len()));
+}
+
 pub fn run(rep: &'static Report) {
     rep.set_rule("E-GRAPH: every state of the C03 edit graphs is decrypted by the real code into a recording sink and the write log is checked (each written range is authentic plaintext of chunks whose whole record has already been consumed and is authentic in place; Ok only on complete authentic input). E-ENV: decryption of authentic and tampered files under every fault at every call index and bounded short reads/writes, same predicate on the offered buffers. distinct_nontrivial counts unique graph states + minted words + distinct faulty executions");
     rep.rule_add("CLI level incl. a stdout reader that leaves after 0/1/4096 bytes.");
